@@ -397,7 +397,9 @@ def obligations(tier):
         for i in range(5):
             od['V%d' % i] = D_VEL
             od['X%d' % i] = D_LEN
-        for pat in ('SCS', 'SCR', 'RCS', 'RCR'):
+        for pat in (('SCS', 'SCR', 'RCS', 'RCR') if tier == 'thorough' else ()):
+            # thorough tier only (in the quick tier the kernel obligations above carry the Riemann solver: the implicit
+            # derivative of the root makes these identities mostly undecided within the quick budgets).
             # one obligation per wave pattern (own budget, run in parallel): the other patterns' paths are abandoned at bisect
             def rrun_pat(mk, pat=pat, rrun=rrun):
                 from symx.engine import PathAbort
